@@ -1,23 +1,32 @@
 #!/usr/bin/env python3
-"""Write seeded/<id>/meta.json and seeded/RESULTS.md from build/mutres/*.txt (outputs of tools/run_mutations.sh)."""
-import os, re, json, glob
+"""Write seeded/<id>/meta.json and seeded/RESULTS.md from <results dir>/<seed name>.txt (outputs of
+tools/run_all_seeds.sh).  usage: tools/seed_results.py <results dir>"""
+import os, re, json, glob, sys
 ROOT = "/verif"
 import sys
-RES = sys.argv[1] if len(sys.argv) > 1 else ROOT + "/build"
+if len(sys.argv) != 2 or not os.path.isdir(sys.argv[1]):
+    print(__doc__); sys.exit(2)
+RES = sys.argv[1]
 rows = []
 for d in sorted(glob.glob(ROOT + "/seeded/*/")):
     name = os.path.basename(d.rstrip("/"))
     meta = {"seed": name}
     if name.startswith("revert-"):
         meta["kind"] = "reverted fix"
-        res_file = ROOT + "/build/mutres/%s.txt" % name
+        res_file = RES + "/%s.txt" % name
+        old = d + "meta.json"
+        if os.path.exists(old):
+            try:
+                meta["reverts"] = json.load(open(old)).get("reverts", "")
+            except ValueError:
+                pass
     else:
         parts = name.split("-")
         pid, n = parts[0], parts[-1]
-        rnd = "2" if "r2" in parts else ""
+        meta["round"] = 2 if "r2" in parts else 3 if "r3" in parts else 1
         meta["breaks_property"] = pid
         meta["kind"] = "written by an independent sub-agent that saw only the property text and a scratch worktree"
-        res_file = RES + "/mutres%s/%s-%s.txt" % (rnd, pid, n)
+        res_file = RES + "/%s.txt" % name
         notes = d + "notes.md"
         if os.path.exists(notes):
             meta["needs_to_manifest"] = open(notes).read().strip()[:1500]
